@@ -34,7 +34,7 @@ struct SpectraVerifAccess
     template <class S> static Eigen::Index nev(S& s) { return s.m_nev; }
     template <class S> static Eigen::Index& nmatop(S& s) { return s.m_nmatop; }
     // LOBPCG
-    template <class L> static auto lobpcg_X(const L& l) -> decltype((l.m_evectors)) { return l.m_evectors; }
+    template <class L> static auto lobpcg_X(const L& l) -> decltype((l.X)) { return l.X; }
 };
 
 namespace vfh {
